@@ -170,14 +170,11 @@ pub fn check_case(c: &BoundsCase, l: &mut Local) -> Result<(), String> {
 
 fn case_strategy() -> BoxedStrategy<BoundsCase> {
     // SPL Token, extension-free Token-2022, mixed, and Token-2022 mints with (different) transfer fees
-    let hist = (history_strategy(false, false, 20), prop_oneof![3 => Just(0u8), 1 => Just(1u8), 1 => Just(2u8), 2 => Just(3u8)], tf_strategy(), tf_strategy()).prop_map(|(mut h, mk, tf1, tf2)| {
+    let plain = (history_strategy(false, false, 20), prop_oneof![3 => Just(0u8), 1 => Just(1u8), 1 => Just(2u8)]).prop_map(|(mut h, mk)| {
         h.spec.mint_kind = mk;
-        if mk == 3 {
-            h.spec.tf1 = tf1;
-            h.spec.tf2 = tf2;
-        }
         h
     });
+    let hist = prop_oneof![5 => plain, 2 => with_fee_mints(history_strategy(false, false, 20))];
     let swap = (0u8..2, any::<bool>(), any::<bool>(), swap_amount_strategy(), limit_strategy(), any::<bool>())
         .prop_map(|(trader, a_to_b, exact_in, amount, limit, v2)| SwapSpec { trader, a_to_b, exact_in, amount, limit, v2 });
     (hist, swap).prop_map(|(hist, swap)| BoundsCase { hist, swap }).boxed()
@@ -186,7 +183,7 @@ fn case_strategy() -> BoxedStrategy<BoundsCase> {
 pub fn def() -> CheckDef {
     CheckDef {
         id: "C03",
-        rule: "a generated history prefix, then one swap (v1 / v2, SPL Token or extension-free Token-2022 mints) with generated amount, direction, mode and price \
+        rule: "a generated history prefix, then one swap (v1 / v2; SPL Token, extension-free Token-2022 mints, or Token-2022 transfer-fee mints with current and scheduled fee schedules) with generated amount, direction, mode and price \
                limit (none, exact price of an initialized / usable tick, offset, protocol bound); run once with a neutral threshold to learn the realised \
                amounts from the trader's balances, then on fresh clones with thresholds realised-1, realised, realised+1, 0 and u64::MAX: accepted <=> the \
                threshold admits the realised amount; on success amount bounds, direction, protocol bounds, limit, 'used less => price == limit/bound', \
